@@ -229,7 +229,17 @@ pub fn run(ctx: &Ctx) {
         Tier::Quick => 1_500,
         Tier::Thorough => 60_000,
     };
-    ctx.search(&Parallel, n, par_case_strategy);
+    ctx.search(&Parallel, n, || {
+        prop_oneof![
+            5 => par_case_strategy(),
+            // music-like material with larger blocks: the LPC/FIXED and channel-pair tasks really compete
+            1 => super::c01::tonal_case_strategy().prop_map(|mut c| {
+                c.chunks = vec![];
+                c
+            }),
+        ]
+        .boxed()
+    });
 }
 
 pub fn engines() -> Vec<Box<dyn crate::engine::DynEngine>> {
